@@ -580,6 +580,16 @@ def r7_no_param_cache(repo: Repo, rep):
             rep.check(R, not bad, fi.site(), fi.fq, "values computed from `params` are not stored on self (unless the domain has no free variables)", str(bad[:2]), str(bad[:2]))
 
 
+def _anon(e: ast.AST) -> str:
+    """text of an expression with its local names blanked (stable under renaming of locals): attributes, calls and constants remain"""
+    import copy
+
+    class Blank(ast.NodeTransformer):
+        def visit_Name(s, n):
+            return n if n.id in ("self", "torch", "np", "math") else ast.Name(id="_", ctx=n.ctx)
+    return dump(Blank().visit(copy.deepcopy(e)))
+
+
 def r8_dependent_product_average(repo: Repo, rep):
     R = rep.rule("R-C10-8", "the approximated measure of a dependent product averages, for EACH parameter row, over that row's own sample values: the evaluations come parameter-major "
                  "(_repeat_params interleaves: row i occupies entries i*N .. (i+1)*N-1), so they are reshaped to (rows, N) and reduced over axis 1", floor=2,
@@ -606,7 +616,7 @@ def r8_dependent_product_average(repo: Repo, rep):
                     d = kwarg(s_, "dim", 1 if attr_chain(s_.func) in ("torch.sum", "torch.mean") else 0)
                     red = dump(d) if d is not None else None
         good = (a0 in ("-1",) and a1 == "N_APPROX_VOLUME" and red in ("1", "-1")) or (a1 == "N_APPROX_VOLUME" and a0 not in ("N_APPROX_VOLUME",) and red in ("1", "-1"))
-        rep.check(R, good, fi.site(c), fi.fq, "reshape(-1, N_APPROX_VOLUME) reduced over axis 1 (one average per parameter row)", f"reshape({a0}, {a1}) reduced over dim={red}", f"{dump(c.func.value)[:50]}.reshape({a0}, {a1}) dim={red}")
+        rep.check(R, good, fi.site(c), fi.fq, "reshape(-1, N_APPROX_VOLUME) reduced over axis 1 (one average per parameter row)", f"reshape({a0}, {a1}) reduced over dim={red}", f"{_anon(c.func.value)[:50]}.reshape({a0}, {a1}) dim={red}")
     if n == 0:
         rep.undecided(R, fi.site(), fi.fq, "the per-row average of the sampled measures", "no reshape with N_APPROX_VOLUME found")
 
